@@ -209,7 +209,19 @@ func runC02(c Case, tier string) (res CaseResult) {
 						if o != 0 {
 							w.Get(h.ContractAddr(0)).Storage[h.HashU(1)] = common.BigToHash(new(big.Int).SetUint64(o))
 						}
-						for _, gas := range []uint64{100000, 2300, 2301, 5000, 20000} {
+						// limits at which exactly 2299 / 2300 / 2301 gas is left when each SSTORE is reached (the EIP-2200 sentry)
+						gases := []uint64{100000, 2300, 2301, 5000, 20000}
+						{
+							probe := h.NewForkSession(w, h.EnvSpec{Fork: f, ExtraEips: eips}, h.ForkOpts{Debug: true, RecSteps: true, LightMem: true})
+							probe.Invoke(h.TxSpec{Entry: h.ECall, From: h.Sender, To: h.ContractAddr(0), Gas: 100000})
+							for i := range probe.L.Events {
+								if e := &probe.L.Events[i]; e.K == h.KStep && e.Op == h.SSTORE {
+									used := 100000 - e.Gas
+									gases = append(gases, used+2299, used+2300, used+2301)
+								}
+							}
+						}
+						for _, gas := range gases {
 							dc := DualCase{World: w, Env: h.EnvSpec{Fork: f, ExtraEips: eips}, Tx: h.TxSpec{Entry: h.ECall, From: h.Sender, To: h.ContractAddr(0), Gas: gas},
 								Desc: fmt.Sprintf("sstore fork=%s eips=%v orig=%d cur=%d new=%d gas=%d", f, eips, o, cu, nw, gas)}
 							if fs, _, ok := dualStreams(&res, dc, false, "sstore"); ok {
@@ -483,6 +495,9 @@ func createEdgeDuals(f h.Fork, r *h.RNG) []DualCase {
 						a.PushU(3).PushU(uint64(len(init))).PushU(0).PushU(uint64(t % 2)).Op(h.CREATE2)
 					}
 					a.Op(h.DUP1).PushU(1).Op(h.SSTORE)
+					if f >= h.Byzantium {
+						a.Op(h.RETURNDATASIZE).PushU(6).Op(h.SSTORE) // (what the creator's return-data buffer holds after the create)
+					}
 					a.Op(h.DUP1, h.EXTCODESIZE).PushU(2).Op(h.SSTORE)
 					a.Op(h.DUP1, h.BALANCE).PushU(3).Op(h.SSTORE)
 					a.PushU(0).PushU(0).PushU(0).PushU(0).PushU(0).Op(h.DUP1 + 5).PushU(20000).Op(h.CALL).PushU(4).Op(h.SSTORE)
